@@ -938,6 +938,14 @@ func (w *sfwWorld) judge(fp firewall.Packet, incoming bool, p *fwPeer, act func(
 			// (a cache hit neither re-inserts the tuple nor refreshes the tracked flow: the allowance is
 			// measured from the last pass that went through rules / conntrack, and ends with the cache's
 			// next periodic flush)
+			// Whether the cache or the tracked flow answered is not observable (a pass by rule does not enter the
+			// cache, a pass by tracking does): if it was the tracked flow, its deadline was renewed with the timeout
+			// in force now. The model keeps the later of the two deadlines (second false alarm of this kind, thorough
+			// sweep seed 37: flow opened by rule under tcp_timeout 2s, timeouts reloaded to 6s in the same instant,
+			// the reply passed by tracking — renewed to +6s — and was honoured again 5s later).
+			if fl != nil {
+				fl.refresh(now, ref.timeout(fp.Protocol), true)
+			}
 			w.stats["probe.passed_by_routine_cache"]++
 			return
 		}
